@@ -417,18 +417,9 @@ def check_optional_arithmetic(ctx, funcs, rule="NUL-arith"):
         if isinstance(o, ast.Attribute) and o.attr in nullable and isinstance(o.value, ast.Name):
           n += 1
           p = unparse(o)
-          guarded = False
-          cur, par_ = node, parent(node)
-          while par_ is not None and par_ is not f.node:
-            if isinstance(par_, ast.If) and any(cur is b or any(cur is y for y in ast.walk(b)) for b in par_.body) and p in nul.facts_from_test(par_.test, True):
-              guarded = True
-            if isinstance(par_, ast.If) and any(cur is b or any(cur is y for y in ast.walk(b)) for b in par_.orelse) and p in nul.facts_from_test(par_.test, False):
-              guarded = True
-            if isinstance(par_, ast.IfExp) and any(cur is y for y in ast.walk(par_.body)) and p in nul.facts_from_test(par_.test, True):
-              guarded = True
-            if isinstance(par_, ast.IfExp) and any(cur is y for y in ast.walk(par_.orelse)) and p in nul.facts_from_test(par_.test, False):
-              guarded = True
-            cur, par_ = par_, parent(par_)
+          from ..rules import match as _mt
+          # enclosing tests (if / conditional expression, either branch) and early exits before the use
+          guarded = any(p in nul.facts_from_test(t_, pol_) for (t_, pol_) in _mt.reaching_conditions(node, f.node))
           ctx.check(guarded, rule, f"{f.qualname}|{short(node, 70)}", ctx.where(f.module, node), f"`{p}` is guarded by an `is not None` test",
                     f"`{p}` is Optional (None = indefinite) and is used in `{short(node, 60)}` without a None guard: TypeError for that document")
   return n
